@@ -1,4 +1,5 @@
 import QcoVerif.Properties.C02
+import QcoVerif.Lemmas.FlattenIdem
 /-
   C11 — flattening keeps the operations.
 
@@ -6,7 +7,10 @@ import QcoVerif.Properties.C02
   (mutating) listing — same multiset, each once (`flatten_listing_perm`) —, every one of them is a leaf operation
   and adding them changes nothing but relation links, so no sub-circuit remains (`flatten_no_composite`), and kind,
   qubits, duration strategy, tag and fields of every object are untouched (`flatten_shape`).
-  NOT proved: idempotence of `flatten` on the listing ORDER and the library clause (listing order, schedule,
+  Idempotence of `flatten` on the listing ORDER (and entries, relations, schedule) is proved in the last section for
+  circuits whose listed operations carry no group link with a reference (`flatten_idempotent_partial`,
+  `flatten_twice_graph`, `flatten_twice_links`, `flatten_twice_schedule`; helper lemmas in Lemmas/FlattenIdem.lean).
+  NOT proved: idempotence in the presence of group links, and the library clause (listing order, schedule,
   indices and export unchanged) — the latter is false of model and code for d ≥ 3, cycles ≥ 3 (known finding R5),
   and after an unrolling flatten can even create a cyclic relation (known finding R14); these clauses are evaluated
   on the implementation and compared with the model on every generated program.
@@ -132,5 +136,264 @@ theorem flatten_shape (w : World) (c : Nat) :
   have d4 := congrArg Op.tag hj; have d5 := congrArg Op.ints hj; have d6 := congrArg Op.rep hj
   simp only [Op.noLink] at c1 c2 c3 c4 c5 c6 d1 d2 d3 d4 d5 d6
   exact ⟨c1.trans d1, c2.trans d2, c3.trans d3, c4.trans d4, c5.trans d5, c6.trans d6⟩
+
+/-! ### flattening again changes nothing (circuits without group links)
+
+With `(w₁, ops) = w.operations c` (the mutating listing the first flatten starts from):
+hypotheses `hc` (`c` is a heap object), `htop` (`c` is a top-level circuit: its own link names no reference), `hsingle` (no
+listed operation carries a group link that names a reference — weaker than "no group link among the listed operations";
+for a group link `add_to_graph` evaluates end times and flatten can even create a cycle, known finding R14) and the
+identifier well-formedness `Flat.FlattenWf w c` (Lemmas/FlattenIdem.lean: the link of `c` and the links of the listed
+operations are existing links, the listed operations are existing, pairwise distinct objects, `c` is not one of them and
+listing `c` does not re-link `c` itself).
+
+FULL statement (NOT proved):
+  `∀ w c, c < w.ops.size → listing (((w.flatten c).flatten c).op c).graph = listing ((w.flatten c).op c).graph`.
+  Missing: the case of a listed operation whose link is a group link with references (there the reference is the result
+  of evaluating end times in the heap under construction, undefined on the cyclic heaps of R14), and heaps with
+  ill-formed identifiers / circuits nested in themselves (excluded by `FlattenWf`).
+Proved: the same under `htop`, `hsingle`, `FlattenWf` (`flatten_idempotent_partial`); moreover the second flatten stores
+exactly the entries of the first in listing order (`flatten_twice_graph`), allocates no link and changes no reference of
+any object (`flatten_twice_links`), and changes no start, end or duration (`flatten_twice_schedule`).  The literal "the link *object* of every operation is unchanged" is FALSE of the
+model (`flatten_twice_link_ids_witness`): a root operation that got a fresh empty link in the first flatten is handed the
+(equally reference-free) link of the circuit by the listing of the second flatten — same references, same schedule,
+different link identity. -/
+
+/-- the state after the first flatten satisfies the rebuild invariant (Lemmas/FlattenIdem.lean, `Flat.FlatOk`):
+    every node under the root has a reference-free link, every node under `p` a plain link with reference `p`,
+    keys are sibling indices, roots share no channel with earlier roots. -/
+theorem flatten_invariant (w : World) (c : Nat) (hc : c < w.ops.size)
+    (htop : (w.lnk (w.op c).link).refs = [])
+    (hsingle : ∀ o ∈ (w.operations c).2,
+      ((w.operations c).1.lnk (((w.operations c).1.op o).link)).refs = [] ∨
+      ((w.operations c).1.lnk (((w.operations c).1.op o).link)).multi = false)
+    (hwf : Flat.FlattenWf w c) :
+    Flat.FlatOk (w.flatten c) ((w.flatten c).op c).graph ∧ c < (w.flatten c).ops.size ∧
+    ((w.flatten c).lnk ((w.flatten c).op c).link).refs = [] := by
+  refine Flat.flatten_flatOk w c hc htop hsingle ?_ hwf
+  intro o ho
+  rw [operations_eq_leafListing] at ho
+  exact leafListing_leaves w _ c o ho
+
+/-- **flattening again stores the same entries** (node, parent, path key), in listing order. -/
+theorem flatten_twice_graph (w : World) (c : Nat) (hc : c < w.ops.size)
+    (htop : (w.lnk (w.op c).link).refs = [])
+    (hsingle : ∀ o ∈ (w.operations c).2,
+      ((w.operations c).1.lnk (((w.operations c).1.op o).link)).refs = [] ∨
+      ((w.operations c).1.lnk (((w.operations c).1.op o).link)).multi = false)
+    (hwf : Flat.FlattenWf w c) :
+    (((w.flatten c).flatten c).op c).graph = sortedEntries ((w.flatten c).op c).graph := by
+  obtain ⟨h1, h2, h3⟩ := flatten_invariant w c hc htop hsingle hwf
+  exact (Flat.flatten_of_flatOk (w.flatten c) c h2 h1 h3).1
+
+/-- **flattening again changes nothing** (`_partial`: no group link with a reference among the listed operations,
+    identifiers well formed): the listing order of the flattened circuit is a fixed point of `flatten`. -/
+theorem flatten_idempotent_partial (w : World) (c : Nat) (hc : c < w.ops.size)
+    (htop : (w.lnk (w.op c).link).refs = [])
+    (hsingle : ∀ o ∈ (w.operations c).2,
+      ((w.operations c).1.lnk (((w.operations c).1.op o).link)).refs = [] ∨
+      ((w.operations c).1.lnk (((w.operations c).1.op o).link)).multi = false)
+    (hwf : Flat.FlattenWf w c) :
+    listing (((w.flatten c).flatten c).op c).graph = listing ((w.flatten c).op c).graph := by
+  rw [flatten_twice_graph w c hc htop hsingle hwf]
+  exact Flat.listing_sortedEntries _
+
+/-- the same with the hypothesis "no group links among the listed operations" as in the property text. -/
+theorem flatten_idempotent_no_group (w : World) (c : Nat) (hc : c < w.ops.size)
+    (htop : (w.lnk (w.op c).link).refs = [])
+    (hsingle : ∀ o ∈ (w.operations c).2,
+      ((w.operations c).1.lnk (((w.operations c).1.op o).link)).multi = false)
+    (hwf : Flat.FlattenWf w c) :
+    listing (((w.flatten c).flatten c).op c).graph = listing ((w.flatten c).op c).graph :=
+  flatten_idempotent_partial w c hc htop (fun o ho => Or.inr (hsingle o ho)) hwf
+
+/-- **the second flatten keeps every relation**: it allocates no link, every object refers to the same operations as
+    before, and an object that has a relation keeps its link object (hence same relation type, same schedule). -/
+theorem flatten_twice_links (w : World) (c : Nat) (hc : c < w.ops.size)
+    (htop : (w.lnk (w.op c).link).refs = [])
+    (hsingle : ∀ o ∈ (w.operations c).2,
+      ((w.operations c).1.lnk (((w.operations c).1.op o).link)).refs = [] ∨
+      ((w.operations c).1.lnk (((w.operations c).1.op o).link)).multi = false)
+    (hwf : Flat.FlattenWf w c) :
+    ((w.flatten c).flatten c).links = (w.flatten c).links ∧
+    ∀ o, (((w.flatten c).flatten c).lnk (((w.flatten c).flatten c).op o).link).refs =
+        ((w.flatten c).lnk ((w.flatten c).op o).link).refs ∧
+      ((w.flatten c).hasRel o = true → (((w.flatten c).flatten c).op o).link = ((w.flatten c).op o).link) := by
+  obtain ⟨h1, h2, h3⟩ := flatten_invariant w c hc htop hsingle hwf
+  exact (Flat.flatten_of_flatOk (w.flatten c) c h2 h1 h3).2
+
+/-- **the second flatten leaves the schedule alone**: start, end and duration of every object (evaluated with any fuel;
+    `none` = undefined) are the same after the second flatten as after the first. -/
+theorem flatten_twice_schedule (w : World) (c : Nat) (hc : c < w.ops.size)
+    (htop : (w.lnk (w.op c).link).refs = [])
+    (hsingle : ∀ o ∈ (w.operations c).2,
+      ((w.operations c).1.lnk (((w.operations c).1.op o).link)).refs = [] ∨
+      ((w.operations c).1.lnk (((w.operations c).1.op o).link)).multi = false)
+    (hwf : Flat.FlattenWf w c) (f o : Nat) :
+    evStart ((w.flatten c).flatten c) f o = evStart (w.flatten c) f o ∧
+    evEnd ((w.flatten c).flatten c) f o = evEnd (w.flatten c) f o ∧
+    evDur ((w.flatten c).flatten c) f o = evDur (w.flatten c) f o := by
+  obtain ⟨h1, h2, h3⟩ := flatten_invariant w c hc htop hsingle hwf
+  have key := Flat.sched_congr (Flat.flatten_of_flatOk_sched (w.flatten c) c h2 h1 h3) f
+  exact ⟨key.2.2.2.1 o, key.2.2.2.2.1 o, key.2.2.1 o⟩
+
+/-- the same from conditions on the heap `w` itself (no reference to the heap after the listing): no group link
+    anywhere, every object's link is an existing link, `c` is a sub-circuit object that is not a node of any graph
+    (a top-level circuit), and the leaf listing of `c` (pure walk, `operations_expand`) names existing objects, none
+    twice. -/
+theorem flatten_idempotent_tree (w : World) (c : Nat) (hc : c < w.ops.size) (hcomp : (w.op c).isComp = true)
+    (htop : (w.lnk (w.op c).link).refs = [])
+    (hplain : ∀ l, (w.lnk l).multi = false)
+    (hlin : ∀ j, (w.op j).link < w.links.size)
+    (hcnode : ∀ o, ∀ e ∈ (w.op o).graph, e.node ≠ c)
+    (hnd : (w.leafListing w.depthFuel c).Nodup)
+    (hin : ∀ o ∈ w.leafListing w.depthFuel c, o < w.ops.size) :
+    Flat.FlattenWf w c ∧
+    listing (((w.flatten c).flatten c).op c).graph = listing ((w.flatten c).op c).graph := by
+  have hwf : Flat.FlattenWf w c := by
+    refine Flat.flattenWf_of_tree w c hlin hcnode hnd hin ?_
+    intro hmem
+    have := leafListing_leaves w _ c c hmem
+    rw [hcomp] at this; cases this
+  refine ⟨hwf, flatten_idempotent_partial w c hc htop ?_ hwf⟩
+  intro o _
+  rw [Flat.operations_lnk]
+  exact Or.inr (hplain _)
+
+/-- non-vacuity.  The heap built by the program
+    `c = circuit(); a = Rx180(q0); c.add(a); s = circuit(); x = Ry90(q1); s.add(x); y = Measure(q1, after x); s.add(y);
+     c.add_sub_circuit(s); b = Hadamard(q0); c.add(b)`  (in the model: `newCircuit/newLink/newOp/add/addSub`; `#eval` of
+    that program prints exactly this literal): circuit `0` holds `1 = Rx180(q0)`, the nested copy `5` of the
+    sub-circuit (`6 = Ry90(q1)`, `7 = Measure(q1)` with the explicit relation "after `6`") and `8 = Hadamard(q0)`
+    under `1`; objects `2,3,4` are the original sub-circuit.  Its first flatten stores the entries in the insertion order
+    `1, 6, 7, 8` (keys `[0], [1], [1,0], [0,0]`), listed `1, 6, 8, 7`; the second flatten stores them in that order. -/
+def exIdem : World :=
+  { ops := #[
+      { cls := .comp, graph := [⟨1, none, [0]⟩, ⟨5, none, [1]⟩, ⟨8, some 1, [0, 0]⟩] },
+      { cls := .rx180, qs := [0], dur := .glob .mw, link := 1 },
+      { cls := .comp, graph := [⟨3, none, [0]⟩, ⟨4, some 3, [0, 0]⟩] },
+      { cls := .ry90, qs := [1], dur := .glob .mw, link := 2 },
+      { cls := .measure, qs := [1], dur := .glob .ro, link := 3 },
+      { cls := .comp, link := 4, graph := [⟨6, none, [0]⟩, ⟨7, some 6, [0, 0]⟩] },
+      { cls := .ry90, qs := [1], dur := .glob .mw, link := 5 },
+      { cls := .measure, qs := [1], dur := .glob .ro, link := 6 },
+      { cls := .hadamard, qs := [0], dur := .glob .mw, link := 8 }],
+    links := #[{}, {}, {}, { refs := [3] }, {}, {}, { refs := [6] }, {}, { refs := [1] }] }
+
+/-- all hypotheses of `flatten_idempotent_tree` hold of it, and so do those of `flatten_idempotent_partial`,
+    `flatten_idempotent_no_group`, `flatten_twice_graph`, `flatten_twice_links`, `flatten_twice_schedule`
+    (`hc`, `htop`, `hsingle` in its strong form, `FlattenWf`). -/
+example :
+    (0 < exIdem.ops.size ∧ (exIdem.op 0).isComp = true ∧ (exIdem.lnk (exIdem.op 0).link).refs = [] ∧
+     (∀ l, (exIdem.lnk l).multi = false) ∧ (∀ j, (exIdem.op j).link < exIdem.links.size) ∧
+     (∀ o, ∀ e ∈ (exIdem.op o).graph, e.node ≠ 0) ∧
+     (exIdem.leafListing exIdem.depthFuel 0).Nodup ∧
+     (∀ o ∈ exIdem.leafListing exIdem.depthFuel 0, o < exIdem.ops.size)) ∧
+    (∀ o ∈ (exIdem.operations 0).2,
+      ((exIdem.operations 0).1.lnk (((exIdem.operations 0).1.op o).link)).multi = false) ∧
+    Flat.FlattenWf exIdem 0 ∧
+    (exIdem.operations 0).2 = [1, 6, 7, 8] := by
+  have exIdem_leafListing : exIdem.leafListing exIdem.depthFuel 0 = [1, 6, 7, 8] := by
+    have hl := listing_of_graphsSorted exIdem (by decide)
+    have hf : exIdem.depthFuel = 11 := rfl
+    simp only [hf, World.leafListing, hl]
+    decide
+  have h0 : 0 < exIdem.ops.size := by decide
+  have hcomp : (exIdem.op 0).isComp = true := by decide
+  have htop : (exIdem.lnk (exIdem.op 0).link).refs = [] := by decide
+  have hplain : ∀ l, (exIdem.lnk l).multi = false := by
+    intro l
+    have := Flat.forall_lnk exIdem (fun L => !L.multi) (by decide) (by decide) l
+    simpa using this
+  have hlin : ∀ j, (exIdem.op j).link < exIdem.links.size := by
+    intro j
+    have := Flat.forall_op exIdem (fun o => decide (o.link < exIdem.links.size)) (by decide) (by decide) j
+    simpa using this
+  have hcnode : ∀ o, ∀ e ∈ (exIdem.op o).graph, e.node ≠ 0 := by
+    intro o e he
+    have := Flat.forall_op exIdem (fun o => o.graph.all (fun e => e.node != 0)) (by decide) (by decide) o
+    simp only [List.all_eq_true, bne_iff_ne, ne_eq] at this
+    exact this e he
+  have hnd : (exIdem.leafListing exIdem.depthFuel 0).Nodup := by rw [exIdem_leafListing]; decide
+  have hin : ∀ o ∈ exIdem.leafListing exIdem.depthFuel 0, o < exIdem.ops.size := by
+    rw [exIdem_leafListing]; decide
+  refine ⟨⟨h0, hcomp, htop, hplain, hlin, hcnode, hnd, hin⟩, ?_,
+    (flatten_idempotent_tree exIdem 0 h0 hcomp htop hplain hlin hcnode hnd hin).1, ?_⟩
+  · intro o _; rw [Flat.operations_lnk]; exact hplain _
+  · rw [operations_eq_leafListing, exIdem_leafListing]
+
+/-- the circuit of the witness below, built by the program
+    `c = circuit(); s1 = circuit(); s1.add(Rx180(q0)); s2 = circuit(relation = after s1); s2.add(Rx180(q1)); c.add(s1);
+     c.add(s2)`: sub-circuit `1` (operation `2`) and sub-circuit `3` (operation `4`), the second one related to the first
+    one as a whole. -/
+def exLinkIds : World :=
+  { ops := #[
+      { cls := .comp, graph := [⟨1, none, [0]⟩, ⟨3, some 1, [0, 0]⟩] },
+      { cls := .comp, graph := [⟨2, none, [0]⟩] },
+      { cls := .rx180, qs := [0], dur := .glob .mw, link := 1 },
+      { cls := .comp, link := 2, graph := [⟨4, none, [0]⟩] },
+      { cls := .rx180, qs := [1], dur := .glob .mw, link := 3 }],
+    links := #[{}, {}, { refs := [1] }, {}] }
+
+/-- the literal reading of "no link of any operation changes in the second flatten" (`(w''.op o).link = (w'.op o).link`
+    for every listed `o`) is FALSE of the model although all hypotheses hold: operation `4` refers (through its
+    sub-circuit) to a sub-circuit, which is not a node of the flattened graph, so the first flatten gives it a fresh empty
+    link `4`; the listing of the second flatten hands it the link `0` of the circuit.  Both links are reference-free
+    (`flatten_twice_links`), the schedule is the same. -/
+theorem flatten_twice_link_ids_witness :
+    0 < exLinkIds.ops.size ∧ (exLinkIds.lnk (exLinkIds.op 0).link).refs = [] ∧
+    (∀ o ∈ (exLinkIds.operations 0).2,
+      ((exLinkIds.operations 0).1.lnk (((exLinkIds.operations 0).1.op o).link)).multi = false) ∧
+    Flat.FlattenWf exLinkIds 0 ∧
+    4 ∈ listing ((exLinkIds.flatten 0).op 0).graph ∧
+    ((exLinkIds.flatten 0).op 4).link = 4 ∧ (((exLinkIds.flatten 0).flatten 0).op 4).link = 0 := by
+  have hl := listing_of_graphsSorted exLinkIds (by decide)
+  have hf : exLinkIds.depthFuel = 7 := rfl
+  have exLinkIds_leafListing : exLinkIds.leafListing exLinkIds.depthFuel 0 = [2, 4] := by
+    simp only [hf, World.leafListing, hl]
+    decide
+  have hplain : ∀ l, (exLinkIds.lnk l).multi = false := by
+    intro l
+    have := Flat.forall_lnk exLinkIds (fun L => !L.multi) (by decide) (by decide) l
+    simpa using this
+  have hsingle : ∀ o ∈ (exLinkIds.operations 0).2,
+      ((exLinkIds.operations 0).1.lnk (((exLinkIds.operations 0).1.op o).link)).multi = false := by
+    intro o _; rw [Flat.operations_lnk]; exact hplain _
+  have hwf : Flat.FlattenWf exLinkIds 0 := by
+    refine Flat.flattenWf_of_tree exLinkIds 0 ?_ ?_ ?_ ?_ ?_
+    · intro j
+      have := Flat.forall_op exLinkIds (fun o => decide (o.link < exLinkIds.links.size)) (by decide) (by decide) j
+      simpa using this
+    · intro o e he
+      have := Flat.forall_op exLinkIds (fun o => o.graph.all (fun e => e.node != 0)) (by decide) (by decide) o
+      simp only [List.all_eq_true, bne_iff_ne, ne_eq] at this
+      exact this e he
+    · rw [exLinkIds_leafListing]; decide
+    · rw [exLinkIds_leafListing]; decide
+    · rw [exLinkIds_leafListing]; decide
+  have htop : (exLinkIds.lnk (exLinkIds.op 0).link).refs = [] := by decide
+  have hc : 0 < exLinkIds.ops.size := by decide
+  obtain ⟨h1, _, h3⟩ := flatten_invariant exLinkIds 0 hc htop (fun o ho => Or.inr (hsingle o ho)) hwf
+  have hmem : 4 ∈ listing ((exLinkIds.flatten 0).op 0).graph := by
+    have hc' : 0 < (exLinkIds.flatten 0).ops.size := by
+      simp only [World.flatten, World.operations, hf, World.decomposed, hl]
+      decide +kernel
+    rw [(flatten_listing_perm exLinkIds 0 hc').mem_iff, operations_eq_leafListing, exLinkIds_leafListing]
+    decide
+  have e1 : ((exLinkIds.flatten 0).op 4).link = 4 := by
+    simp only [World.flatten, World.operations, hf, World.decomposed, hl]
+    decide +kernel
+  have e2 : ((exLinkIds.flatten 0).op 0).link = 0 := by
+    simp only [World.flatten, World.operations, hf, World.decomposed, hl]
+    decide +kernel
+  have e3 : (exLinkIds.flatten 0).hasRel 4 = false := by
+    simp only [World.flatten, World.operations, hf, World.decomposed, hl]
+    decide +kernel
+  have e4 : 4 < (exLinkIds.flatten 0).ops.size := by
+    simp only [World.flatten, World.operations, hf, World.decomposed, hl]
+    decide +kernel
+  have root := Flat.flatten_of_flatOk_root (exLinkIds.flatten 0) 0 h1 h3 4 hmem e3 e4
+  rw [e2] at root
+  exact ⟨hc, htop, hsingle, hwf, hmem, e1, root⟩
 
 end Qco.C11
